@@ -278,6 +278,9 @@ func (d Duration) String() string { return time.Duration(d).String() }
 
 type MyString string
 
+// Slot is an integer-kinded map key cast type
+type Slot int32
+
 // HumanDuration is a string-kinded cast type whose name merely ends in "Duration"
 type HumanDuration string
 type MyInt int32
